@@ -113,6 +113,8 @@ def lite_plans(tier, prop):
     plans = [dict(name="all2", mode="alphabet", theme="all", objs=[1], depth=2)]
     if themed:
         plans.append(dict(name=themed + "3", mode="alphabet", theme=themed, objs=[1, 2] if themed == "share" else [1], depth=3))
+    if prop == "C03":      # story traffic around roStorySend, too: what a send / move / swap leaves behind for the next one
+        plans.append(dict(name="story3", mode="alphabet", theme="story", objs=[1], depth=3))
     plans.append(dict(name="random", mode="random", objs=[1, 2], depth=8, num=25, cap=200))
     return plans
 
